@@ -196,10 +196,22 @@ theorem noOpenerEnd_append_last (t : Bytes) (c : UInt8) (h1 : c ≠ 0x7b) (h2 : 
 /-! ### the shapes -/
 
 /-- What precedes the member inside the buffer, and what is remembered about it: for the first member of its
-object the buffer before it has the shape `A` (it ends in the `{`); otherwise a comma was written and the stream
-before it does not end in an opening bracket. -/
-def MemberHead (dl : Bytes) (first : Bool) (A : Bytes → Prop) (pre sep : Bytes) : Prop :=
-  MemberSep pre sep ∧ (first = true → sep = [] ∧ A pre) ∧ (first = false → sep = [0x2c] ∧ NoOpenerEnd (dl ++ pre))
+object the buffer before it has the shape `A` (it ends in the `{`); otherwise a comma was written, the stream
+before it does not end in an opening bracket, and the buffer before it satisfies `Q` (it is again
+unwrite-compatible with the whole stream). -/
+def MemberHead (dl : Bytes) (first : Bool) (A Q : Bytes → Prop) (pre sep : Bytes) : Prop :=
+  MemberSep pre sep ∧ (first = true → sep = [] ∧ A pre) ∧
+    (first = false → sep = [0x2c] ∧ NoOpenerEnd (dl ++ pre) ∧ Q pre)
+
+/-- `buf` is unwrite-compatible with the whole stream `dl ++ buf` for `n` successive calls of
+UnwriteEmptyObjectMember (n = Length()/2 members of the current object): whenever the detection fires on the whole
+stream, the call on `buf` alone removes exactly the same bytes, lands on a member boundary (shape `A` after the last
+member, otherwise not after an opening bracket), and what is left is compatible for n-1 further calls. -/
+def CompatA (dl : Bytes) (A : Bytes → Prop) : Nat → Bytes → Prop
+  | 0, _ => True
+  | k + 1, buf => emptyLenR (dl ++ buf).reverse ≠ 0 →
+      ∃ pre, unwriteEmptyBytes buf = some (pre, true) ∧ unwriteEmptyBytes (dl ++ buf) = some (dl ++ pre, true) ∧
+        (k = 0 → A pre) ∧ (k ≠ 0 → NoOpenerEnd (dl ++ pre)) ∧ CompatA dl A k pre
 
 /-- The buffer directly after an opening byte (Length() == 0), for the stack of enclosing frames: the opening byte
 is in the buffer; if the enclosing frame is an object, so is `[,] ws "name" : ws` of the member being written, and
@@ -211,31 +223,50 @@ def AShape (dl : Bytes) : List Frame → Bytes → Prop
       (p.isObj = true → ∃ pre sep ws1 name ws2,
         b = pre ++ sep ++ ws1 ++ (0x22 :: name ++ [0x22]) ++ [0x3a] ++ ws2 ∧
         WsOnly ws1 ∧ WsOnly ws2 ∧ QuotesEscaped name ∧
-        MemberHead dl (p.len == 2) (AShape dl rest) pre sep)
+        MemberHead dl (p.len == 2) (AShape dl rest) (CompatA dl (AShape dl rest) ((p.len - 2) / 2)) pre sep)
+
+def Compat (dl : Bytes) (stack : List Frame) : Nat → Bytes → Prop := CompatA dl (AShape dl stack)
 
 /-- The buffer after a member name (needObjectValue). -/
 def VShape (dl : Bytes) (len : Nat) (stack : List Frame) (buf : Bytes) : Prop :=
   ∃ pre sep ws1 name, buf = pre ++ sep ++ ws1 ++ (0x22 :: name ++ [0x22]) ∧ WsOnly ws1 ∧ QuotesEscaped name ∧
-    MemberHead dl (len == 1) (AShape dl stack) pre sep
+    MemberHead dl (len == 1) (AShape dl stack) (Compat dl stack ((len - 1) / 2)) pre sep
 
 /-- The buffer after a member whose value is one of the empty encodings. -/
 def CShape (dl : Bytes) (len : Nat) (stack : List Frame) (buf : Bytes) : Prop :=
   ∃ pre sep ws1 name ws2 val,
     buf = pre ++ sep ++ ws1 ++ (0x22 :: name ++ [0x22]) ++ [0x3a] ++ ws2 ++ val ∧
     WsOnly ws1 ∧ WsOnly ws2 ∧ QuotesEscaped name ∧ EmptyText val ∧
-    MemberHead dl (len == 2) (AShape dl stack) pre sep
+    MemberHead dl (len == 2) (AShape dl stack) (Compat dl stack ((len - 2) / 2)) pre sep
 
-/-- The invariant of a run (with the freshness flag of `stepD`). -/
+/-- The invariant of a run.  (The Bool is the freshness flag of `stepD`; the invariant does not depend on it.) -/
 structure InvS (e : Enc) (fresh : Bool) : Prop where
   bottom : bottomIsObj e.last e.stack = false
   parents : ∀ f ∈ e.stack, f.len > 0 ∧ (f.isObj = true → f.len % 2 = 0)
   opened : e.last.len = 0 → AShape e.delivered e.stack e.buf
   named : e.last.needValue = true → VShape e.delivered e.last.len e.stack e.buf
-  valued : fresh = true → e.last.needName = true → e.last.len > 0 → emptyLenR e.total.reverse ≠ 0 →
-    CShape e.delivered e.last.len e.stack e.buf
+  stale : e.last.needName = true → e.last.len > 0 → Compat e.delivered e.stack (e.last.len / 2) e.buf
   noOpen : e.last.len > 0 → NoOpenerEnd e.total
 
+theorem compat_zero (dl : Bytes) (st : List Frame) (buf : Bytes) : Compat dl st 0 buf := trivial
+
+theorem compat_of_zero {dl : Bytes} {st : List Frame} {buf : Bytes} (n : Nat)
+    (h : emptyLenR (dl ++ buf).reverse = 0) : Compat dl st n buf := by
+  cases n with
+  | zero => trivial
+  | succ k => intro hne; exact absurd h hne
+
+theorem compat_step {dl : Bytes} {st : List Frame} {n : Nat} {buf : Bytes} (h : Compat dl st n buf) (hn : n ≠ 0)
+    (hne : emptyLenR (dl ++ buf).reverse ≠ 0) :
+    ∃ pre, unwriteEmptyBytes buf = some (pre, true) ∧ unwriteEmptyBytes (dl ++ buf) = some (dl ++ pre, true) ∧
+      (n = 1 → AShape dl st pre) ∧ (n ≠ 1 → NoOpenerEnd (dl ++ pre)) ∧ Compat dl st (n - 1) pre := by
+  cases n with
+  | zero => exact absurd rfl hn
+  | succ k =>
+    obtain ⟨pre, h1, h2, h3, h4, h5⟩ := h hne
+    exact ⟨pre, h1, h2, fun e => h3 (by omega), fun e => h4 (by omega), h5⟩
+
 theorem invS_init (omitNL fresh : Bool) : InvS { omitNL := omitNL } fresh :=
-  ⟨rfl, by simp, fun _ => trivial, by simp [Frame.needValue], by simp, by simp⟩
+  ⟨rfl, by simp, fun _ => trivial, by simp [Frame.needValue], by simp [Frame.needName], by simp⟩
 
 end JsonV.Model.Flush
